@@ -632,6 +632,30 @@ def scen_todir(rng):
     return {'tree': [], 'funcs': funcs, 'steps': steps}
 
 
+def scen_file_becomes_parent(rng):
+    """an output FILE of the previous build whose path is a parent DIRECTORY in the next build - after the directory
+    that held it (pre-existing or created by the build) was removed by the user; the call that creates it there
+    succeeds or fails, and the view is then asked top-down"""
+    d = rng.choice(NAMES)
+    e = '%s/%s' % (d, rng.choice(NAMES))
+    x = '%s/%s' % (e, rng.choice(NAMES + ['sub/x']))
+    fail = rng.choice(['raise', 'raise', 'nowrite', 'ok'])
+    top_down = [_q('exists', d), _q('list_dir', ''), _q('walk', '', True), _q('is_dir', e), _q('list_dir', d), _q('exists', x)]
+    rng.shuffle(top_down)
+    funcs = [
+        _fn('f0', [['if', ['arg', _e(0)], [_bf(e, 1, catch=True, cmp_=rng.choice('MH'))],
+                    [_bf(x, 2, arg=1, catch=True)] + top_down[:rng.randint(2, 5)]]]),
+        _fn('f1', [['w', None]]),
+        _fn('f2', ([['w', None], ['raise', 7]] if fail == 'raise' else [] if fail == 'nowrite' else [['w', None]])),
+    ]
+    funcs.append(_fn('rootfail', funcs[0]['stmts'] + [['raise', 99]]))
+    pre = rng.random() < 0.6
+    steps = [_build(arg=0)]
+    steps.append(['mut', 'rmtree', d, None, None] if rng.random() < 0.8 else ['mut', 'delete', e, None, None])
+    steps += [_build(arg=1), _build(arg=1, root=rng.choice([0, 0, 3])), rng.choice([['clean', 'n'], _build(arg=0)])]
+    return {'tree': [[d, 'dir']] if pre else [], 'funcs': funcs, 'steps': steps}
+
+
 def scen_selfread(rng):
     """a build_file function that looks at its own target while it is writing it (the target is invisible to it:
     FileNotFoundError), writes it in two steps, and is later read back by a sibling - with HASH nothing may be
@@ -652,7 +676,7 @@ def scen_selfread(rng):
     return {'tree': [], 'funcs': funcs, 'steps': steps}
 
 
-SCENARIOS = [scen_nested_failure, scen_swap, scen_stale_dir, scen_dups, scen_versions, scen_reads, scen_identity, scen_foreign_swap, scen_sibling_failure, scen_todir, scen_selfread]
+SCENARIOS = [scen_nested_failure, scen_swap, scen_stale_dir, scen_dups, scen_versions, scen_reads, scen_identity, scen_foreign_swap, scen_sibling_failure, scen_todir, scen_selfread, scen_file_becomes_parent]
 
 
 def gen_scenario_cases(seed, per_family, dirsize=4096, families=SCENARIOS):
